@@ -2,6 +2,7 @@
 //! and prints canonical observations. One sub-command per engine.
 mod ast;
 mod frags;
+mod lift;
 mod sat;
 mod desc;
 mod psbt;
@@ -23,6 +24,7 @@ fn main() {
         "tap" => tap::run(&args[2..]),
         "desc" => desc::run(&args[2..]),
         "psbt" => psbt::run(&args[2..]),
+        "lift" => lift::run(&args[2..]),
         other => {
             eprintln!("unknown engine {}", other);
             std::process::exit(2);
